@@ -128,6 +128,9 @@ def run_script(ctx, name, lines, kind="asan", impl_mode="run", want_oracle=True,
         oc = os.path.join(ctx.dir, name + ".impl-clocale.out")
         env3 = dict(env)
         env3["VERIF_HOST_CLOCALE"] = "C.UTF-8"
+        # ... and with the environment variables terminal programs like to consult
+        env3.update({"NO_COLOR": "1", "TERM": "dumb", "COLORTERM": "truecolor", "LANG": "C.UTF-8", "LC_ALL": "C.UTF-8",
+                     "COLUMNS": "40", "LINES": "10", "CLICOLOR": "0", "CLICOLOR_FORCE": "1"})
         rc3, err3 = run_driver(ctx.impl[kind], impl_mode, sp, oc, env=env3)
         b = open(oc, errors="replace").read().split("\n")
         if b != impl_lines and not res.get("locale_diff"):
